@@ -16,6 +16,8 @@ _F = None
 _CFG = None
 _TRUSTED = frozenset()
 _ROOTSET = frozenset()
+_SUMM = {}
+_COLLECT_PROV = False
 
 
 def inv_targets(F):
@@ -55,6 +57,8 @@ def _work(args):
             I.inv_targets = targets
             I.trusted_ctx = _TRUSTED
             I.rootset = _ROOTSET
+            I.summaries = _SUMM
+            I.collect_prov = _COLLECT_PROV
             try:
                 I.analyze_root(b)
             except Exception as e:
@@ -97,6 +101,7 @@ def _work(args):
             for sp, ds in I.inv_records.items():
                 recs[sp] = [[l.key() for l in d] for d in ds]
         out.append({"root": p, "obligs": obl, "events": I.sink.events, "inv": recs, "entered": I.entered,
+                    "prov": I.prov if used_depth == depth and err is None else None,
                     "opaque": [(x[0], x[2], x[3]) for x in I.opaque_calls], "err": err, "steps": I.steps,
                     "time": time.time() - t0, "atoms": None})
     # ship static info of atoms used by invariants
@@ -113,10 +118,13 @@ def _work(args):
     return out
 
 
-def run_pass(F, roots, inv, record_inv, depth=2, budget=20000, jobs=None, rootset=None):
-    global _F, _ROOTSET
+def run_pass(F, roots, inv, record_inv, depth=2, budget=20000, jobs=None, rootset=None, summaries=None,
+             collect_prov=False):
+    global _F, _ROOTSET, _SUMM, _COLLECT_PROV
     _F = F
     _ROOTSET = frozenset(rootset if rootset is not None else roots)
+    _SUMM = summaries or {}
+    _COLLECT_PROV = collect_prov
     jobs = jobs or min(16, os.cpu_count() or 4)
     roots = list(roots)
     # chunk: interleave to balance
@@ -188,6 +196,18 @@ def build_invariants(results, old, targets):
                         info[a] = (ATOM_LO.get(a), ATOM_HI.get(a), ATOM_MASK.get(a))
             inv[sp] = {"disjuncts": m, "atoms": info}
     return inv
+
+
+def build_summaries(results):
+    out = {}
+    for r in results:
+        pv = r.get("prov")
+        if pv:
+            sm = {path: (fl if fl == "foreign" else (bool(fl[0]), bool(fl[1]), fl[2] if len(fl) > 2 else None))
+                  for path, fl in pv.items()}
+            if any(fl != "foreign" for fl in sm.values()):
+                out[r["root"]] = sm
+    return out
 
 
 def inv_signature(inv):
@@ -276,10 +296,6 @@ def analyze_crate(F, depth=2, budget=20000, jobs=None, max_rounds=5, log=None, a
         use = roots if iroots is None else iroots
         results = run_pass(F, use, inv, True, depth, budget, jobs, rootset=roots)
         if iroots is None:
-            roots = extend_roots(F, roots, results)
-            extra = [r for r in roots if r not in set(use)]
-            if extra:
-                results.extend(run_pass(F, extra, inv, True, depth, budget, jobs, rootset=roots))
             iroots = interesting_roots(F, roots, targets)
         newinv = build_invariants(results, inv, targets)
         if log:
@@ -324,16 +340,41 @@ def analyze_crate(F, depth=2, budget=20000, jobs=None, max_rounds=5, log=None, a
     never = [sp for sp, v in inv.items() if v.get("bottom")]
     for sp in never:
         inv[sp] = {"disjuncts": [], "top": True}
-    results = run_pass(F, roots, inv, False, depth, budget, jobs, rootset=roots)
+    # provenance summaries: which returned byte slices are sub-slices (prefix / suffix) of the slice argument
+    pre = run_pass(F, roots, inv, False, depth, budget, jobs, rootset=roots, collect_prov=True)
+    summaries = build_summaries(pre)
+    say("provenance summaries for %d functions t=%.1f" % (len(summaries), time.time() - t0))
+    results = run_pass(F, roots, inv, False, depth, budget, jobs, rootset=roots, summaries=summaries,
+                       collect_prov=True)
+    confirm = build_summaries(results)
+    dropped = 0
+    for fn in list(summaries):
+        if summaries[fn] != confirm.get(fn):
+            # keep only entries confirmed (or strengthened) by the second pass
+            a, b = summaries[fn], confirm.get(fn) or {}
+            keep = {}
+            for path, fl in a.items():
+                fb = b.get(path)
+                if fl != "foreign" and fb not in (None, "foreign") and (not fl[0] or fb[0]) and (not fl[1] or fb[1]) \
+                        and (fl[2] is None or fl[2] == fb[2]):
+                    keep[path] = fl
+                else:
+                    dropped += 1
+            summaries[fn] = keep
+    if dropped:
+        say("provenance: %d entries not confirmed by the second pass (dropped; results re-run)" % dropped)
+        results = run_pass(F, roots, inv, False, depth, budget, jobs, rootset=roots, summaries=summaries)
     for _ in range(4):
         nr = extend_roots(F, roots, results)
         if len(nr) == len(roots):
             break
-        extra = run_pass(F, [r for r in nr if r not in set(roots)], inv, False, depth, budget, jobs, rootset=nr)
+        extra = run_pass(F, [r for r in nr if r not in set(roots)], inv, False, depth, budget, jobs, rootset=nr,
+                         summaries=summaries)
         results.extend(extra)
         roots = nr
     say("final pass done t=%.1f" % (time.time() - t0))
-    return {"inv": inv, "results": results, "roots": roots, "stable": stable, "never_constructed": never}
+    return {"inv": inv, "results": results, "roots": roots, "stable": stable, "never_constructed": never,
+            "summaries": summaries}
 
 
 def extend_roots(F, roots, results):
